@@ -61,4 +61,21 @@ def run(rep):
 
 
 def replay(rep, path):
-    raise tlc.MachineryError("replay: rerun ./check C13 with the same VERIF_SEED; cases are regenerated from the seed")
+    """Rebuild the stored design with the current /repo, drive every input valuation again and judge the cycles."""
+    import json
+    import random
+    d = json.load(open(path))
+    dz = d["design"]
+    rng = random.Random(d["cfg"].get("seed", 0))
+    try:
+        vals = condgen.all_vals(dz["nin"], rng, 1024)
+        argvals = [[rng.randint(1, 7) for _ in range(dz["nargs"])] for _ in vals]
+        lines = condgen.run_simul(dz, vals, argvals)
+    except Exception as ex:  # noqa: BLE001
+        rep.violation({"component": "simultaneous", "cfg": d["cfg"], "clauses": ["ElaborationRaised"], "what": str(ex)[:300], "design": dz})
+        return
+    res, acc, rej, dev = judge.judge("SimultaneousTrace", [{"design": dz, "cycles": lines}])
+    rep.add("traces_validated_against_impl", 1)
+    for r in rej:
+        rep.violation({"component": "simultaneous", "cfg": d["cfg"], "clauses": sorted(set(r["clauses"]) & set(PROPS)),
+                       "all_failing": r["clauses"], "line": r["line"], "design": dz, "observed": lines[r["line"] - 1]})
